@@ -68,3 +68,5 @@ SPEC['trusted_base'] = list(c03.SPEC['trusted_base']) + ['ASSUMED (HDF5 manual):
 SPEC['assumptions'] = ['KERNEL ONLY: decided are (1) H5Group::removeAllLinks removes EVERY hard link of an existing child (terminates with link count 0, for any number of links) and touches nothing for a missing child; '
                        '(2) deletions by handle (File::deleteBlock/deleteSection, Block::deleteSource, Source::deleteSource, Section::deleteSection/deleteProperty) resolve the handle by its id. '
                        'Recursive deletion of sub-sections / sub-sources (shared_ptr back-end objects), which holders re-check their link targets, validity of stale handles and "everything else untouched" are NOT covered']
+
+SPEC['assumptions'] = list(SPEC.get('assumptions', [])) + ['session 3: recursion step of SourceHDF5::deleteSource / SectionHDF5::deleteSection / FileHDF5::deleteSection / BlockHDF5::deleteSource - handles, shared_ptr objects, the child list and removeAllLinks are ghost records; that the step reaches every descendant is an induction over the tree, NOT mechanised']
